@@ -291,7 +291,7 @@ class Machine:
             else:
                 v = int(s.a[c])
             out.append([list(c), int(v)])
-        op = {"op": "update", "slot": i, "cells": out}
+        op = {"op": "update", "slot": i, "cells": out, "as_lists": rng.random() < 0.15}
         if rng.random() < 0.12:
             # an entry with NO rows for some value: degenerate but legal, must change nothing
             op["empty_keys"] = [[int(rng.choice(list(palette) + [9]))] + [rng.randrange(max(1, e)) for e in s.a.shape[1:]]]
@@ -310,7 +310,8 @@ class Machine:
         else:
             p = rng.random()
             mask = [rng.random() < p for _ in range(n)]
-        return {"op": "filtered", "slot": i, "mask": mask, "dst": self._dst(rng)}
+        return {"op": "filtered", "slot": i, "mask": mask, "dst": self._dst(rng),
+                "mask_layout": rng.choice(("plain", "plain", "strided", "readonly"))}
 
     def gen_sliced(self, rng, palette):
         i = self._slot_where(rng, lambda s: s.a.ndim >= 2)
@@ -386,7 +387,8 @@ class Machine:
             prec.append(s.idx.common)
         if not prec:
             prec = [s.idx.common]
-        return {"op": "collapsed", "slot": i, "precedence": [int(p) for p in prec], "dst": self._dst(rng)}
+        return {"op": "collapsed", "slot": i, "precedence": [int(p) for p in prec], "dst": self._dst(rng),
+                "as_tuple": rng.random() < 0.2}
 
     def gen_copy(self, rng, palette):
         i = self._slot_where(rng, lambda s: s.a.ndim <= 2)
@@ -443,7 +445,8 @@ class Machine:
             if rng.random() < 0.3:
                 ent[(rng.choice(palette),) + tuple(0 for _ in s.a.shape[1:])] = [r for r in range(s.a.shape[0]) if rng.random() < 0.5]
         entries = [[list(k), sorted(set(v))] for k, v in ent.items()]
-        return {"op": "set_update", "which": which, "slot": i, "entries": entries, "as_index": rng.random() < 0.3}
+        return {"op": "set_update", "which": which, "slot": i, "entries": entries, "as_index": rng.random() < 0.3,
+                "as_lists": rng.random() < 0.2}
 
     def gen_observe(self, rng, palette):
         i = self._slot_where(rng, lambda s: s.a.ndim <= 2)
@@ -599,7 +602,11 @@ class Machine:
             if k not in ent:
                 ent[k] = []
                 self.stats.count("probe_update_with_empty_entry")
-        entries = {k: numpy.array(sorted(r), dtype=U32) for k, r in ent.items()}
+        if op.get("as_lists"):
+            entries = {k: sorted(r) for k, r in ent.items()}  # plain lists of ints instead of uint32 arrays
+            self.stats.count("probe_operand_given_as_lists")
+        else:
+            entries = {k: numpy.array(sorted(r), dtype=U32) for k, r in ent.items()}
         snap = model.snapshot(entries)
         if any(v == s.idx.common for _, v in cells):
             self.stats.count("probe_update_writes_common")
@@ -615,6 +622,13 @@ class Machine:
         s = self.slot(op["slot"], maxdim=2)
         self.guard(len(op["mask"]) == s.a.shape[0])
         mask = numpy.array(op["mask"], dtype=bool)
+        layout = op.get("mask_layout")
+        if layout == "strided":
+            big = numpy.ones(len(mask) * 2, dtype=bool)
+            big[::2] = mask
+            mask = big[::2]
+        elif layout == "readonly":
+            mask.setflags(write=False)
         snap_src, snap_mask = model.snapshot(s.idx), model.snapshot(mask)
         out = self.call("filtered", s.idx.filtered, mask, int(mask.sum()))
         self.unchanged(s.idx, snap_src, "filtered")
@@ -716,10 +730,13 @@ class Machine:
         prec = list(op["precedence"])
         self.guard(prec and len(set(prec)) == len(prec))
         snap = model.snapshot(s.idx)
+        if op.get("as_tuple"):
+            prec = tuple(prec)
         psnap = model.snapshot(prec)
         out = self.call("collapsed", s.idx.collapsed, prec)
+        prec = list(prec)
         self.unchanged(s.idx, snap, "collapsed")
-        self.unchanged(prec, psnap, "collapsed")
+        self.unchanged(tuple(prec) if op.get("as_tuple") else prec, psnap, "collapsed")
         want = numpy.empty(s.a.shape[0], dtype=numpy.int64)
         for r in range(s.a.shape[0]):
             row = set(s.a[r].tolist())
@@ -815,6 +832,9 @@ class Machine:
         arrays = {k: numpy.array(v, dtype=U32) for k, v in ent.items()}
         if op.get("as_index"):
             operand = iindex_cls()(arrays, c, s.idx.shape)
+        elif op.get("as_lists"):
+            operand = {k: list(v) for k, v in ent.items()}
+            self.stats.count("probe_operand_given_as_lists")
         else:
             operand = arrays
         snap = model.snapshot(operand)
